@@ -59,6 +59,7 @@ def run(ctx: Ctx) -> None:
     kil_read_fresh(ctx, py)
     api_parity_and_full_scan(ctx, py, rs)
     register_access_and_queue_order(ctx, py)
+    press_release_name_parity(ctx, py)
 
 
 # ---------------------------------------------------------------------------
@@ -839,3 +840,37 @@ def register_access_and_queue_order(ctx: Ctx, py: PyProgram) -> None:
     ctx.instance("C14.4/settings-exact", "timing settings stored by the matrix constructor as functions of their own parameter only", k_set, 4)
     ctx.instance("C14.4/register-access-pure", "register-access entry points of the matrix followed through their helpers: no store to a KeyState field", n, 3)
     ctx.instance("C14.1/fifo-order", "fifo_snapshot interpreted for every (head, tail) of the ring with symbolic slots: oldest first", m, 64)
+
+
+def press_release_name_parity(ctx: Ctx, py: PyProgram) -> None:
+    """press_key and release_key of one class name the key the same way: whatever one of them does to its key parameter before
+    looking the key up (strip, upper, alias table ..) the other does too.  Otherwise a key accepted under one spelling by the press
+    is not found by the release: it stays held, keeps repeating and never produces a release event."""
+    n = 0
+    for rel in (KM_PY, "pce500/keyboard_handler.py"):
+        m = py.module(rel)
+        ctx.file_used(REPO / rel)
+        for cls in [c for c in ast.walk(m.tree) if isinstance(c, ast.ClassDef)]:
+            meths = {f.name: f for f in cls.body if isinstance(f, ast.FunctionDef)}
+            if not ("press_key" in meths and "release_key" in meths):
+                continue
+            forms = {}
+            for nm in ("press_key", "release_key"):
+                fn = meths[nm]
+                ps = [a.arg for a in fn.args.args if a.arg != "self"]
+                if not ps:
+                    raise AnalysisError(f"{rel}: {cls.name}.{nm} has no key parameter")
+                p0 = ps[0]
+                rb = []
+                for st in ast.walk(fn):
+                    ts = st.targets if isinstance(st, ast.Assign) else [st.target] if isinstance(st, (ast.AugAssign, ast.AnnAssign)) else []
+                    for t in ts:
+                        if isinstance(t, ast.Name) and t.id == p0 and getattr(st, "value", None) is not None:
+                            rb.append(re.sub(r"\b%s\b" % re.escape(p0), "<key>", unparse(st.value)))
+                forms[nm] = sorted(rb)
+            n += 1
+            if forms["press_key"] != forms["release_key"]:
+                ctx.violation("C14.4/press-release-name-parity", key_of(rel, cls.name, "press_key / release_key rewrite the key name differently"),
+                              f"{cls.name}.press_key rewrites its key parameter as {forms['press_key'] or 'nothing'} but release_key as {forms['release_key'] or 'nothing'}: "
+                              "a key pressed under a spelling only one of them normalises is never released", f"{rel}:{meths['press_key'].lineno}")
+    ctx.instance("C14.4/press-release-name-parity", "classes with a press_key/release_key pair: both treat the key parameter alike", n, 2)
